@@ -509,17 +509,19 @@ func thresholdFromBoundedProbability(
 
 	// probability = 1 - (1-f)^sigma: since (1-f)^sigma's upper bound
 	// (hi) corresponds to probability's *lower* bound and vice versa.
-	probLo := new(big.Float).SetPrec(workPrec).Sub(one, hi)
-	probHi := new(big.Float).SetPrec(workPrec).Sub(one, lo)
+	// The results must be rounded outward (lower bound down, upper bound
+	// up) to remain an enclosure: when (1-f)^sigma is tiny, 1-hi and 1-lo
+	// are not representable at workPrec and rounding both to nearest would
+	// collapse them into the same value.
+	probLo := new(big.Float).SetPrec(workPrec).SetMode(big.ToNegativeInf).
+		Sub(one, hi)
+	probHi := new(big.Float).SetPrec(workPrec).SetMode(big.ToPositiveInf).
+		Sub(one, lo)
 
-	thresholdLoFloat := new(big.Float).SetPrec(workPrec).Mul(
-		probLo,
-		upperBoundFloat,
-	)
-	thresholdHiFloat := new(big.Float).SetPrec(workPrec).Mul(
-		probHi,
-		upperBoundFloat,
-	)
+	thresholdLoFloat := new(big.Float).SetPrec(workPrec).SetMode(big.ToNegativeInf).
+		Mul(probLo, upperBoundFloat)
+	thresholdHiFloat := new(big.Float).SetPrec(workPrec).SetMode(big.ToPositiveInf).
+		Mul(probHi, upperBoundFloat)
 
 	thresholdLo, _ := thresholdLoFloat.Int(nil)
 	thresholdHi, _ := thresholdHiFloat.Int(nil)
